@@ -68,12 +68,11 @@ theorem applyTo_setMonths (k : Int) (x : Temporal) (hx : x.Valid)
   rw [hk] at this
   exact this
 
-theorem lt_iff (a b : DT) : DT.lt a b = true ↔ a.toMicros < b.toMicros := by
-  unfold DT.lt; exact decide_eq_true_iff
 
-theorem diffLoop_down (n : Nat) (dt1 dt2 : Temporal) (h1 : dt1.t.Valid) (h2 : dt2.Valid)
+theorem diffLoop_down (key : Temporal → Int) (hkey : ∀ x, key x = x.t.toMicros)
+    (n : Nat) (dt1 dt2 : Temporal) (h1 : dt1.t.Valid) (h2 : dt2.Valid)
     (hge : ¬ dt1.t.toMicros < dt2.t.toMicros) :
-    ∃ k', diffLoop (n + 1) false dt1 dt2 ((dt1.t.y - dt2.t.y) * 12 + (dt1.t.m - dt2.t.m))
+    ∃ k', diffLoop key (n + 1) false dt1 dt2 ((dt1.t.y - dt2.t.y) * 12 + (dt1.t.m - dt2.t.m))
               ⟨dt2.kind, shiftDT dt2.t ((dt1.t.y - dt2.t.y) * 12 + (dt1.t.m - dt2.t.m))⟩
             = some (.ok (k', ⟨dt2.kind, shiftDT dt2.t k'⟩)) ∧
       0 ≤ k' ∧ (shiftDT dt2.t k').Valid ∧ (shiftDT dt2.t k').toMicros ≤ dt1.t.toMicros ∧
@@ -98,12 +97,12 @@ theorem diffLoop_down (n : Nat) (dt1 dt2 : Temporal) (h1 : dt1.t.Valid) (h2 : dt
       toMicros_lt_of_month_lt _ _ (sf (k0 - 1)).1 v1 (by have := (sf (k0 - 1)).2; omega)
     refine ⟨k0 - 1, ?_, by omega, hvalid, by omega, by rw [show k0 - 1 + 1 = k0 by omega]; exact hov⟩
     rw [diffLoop]
-    simp only [Bool.false_eq_true, ↓reduceIte, lt_iff, hov]
+    simp only [hkey, Bool.false_eq_true, ↓reduceIte, hov]
     rw [applyTo_setMonths (k0 - 1) dt2 h2 hyr]
     simp only []
     cases n with
-    | zero => rw [diffLoop]; simp only [Bool.false_eq_true, ↓reduceIte, lt_iff]; rw [if_neg (by omega)]
-    | succ n => rw [diffLoop]; simp only [Bool.false_eq_true, ↓reduceIte, lt_iff]; rw [if_neg (by omega)]
+    | zero => rw [diffLoop]; simp only [hkey, Bool.false_eq_true, ↓reduceIte]; rw [if_neg (by omega)]
+    | succ n => rw [diffLoop]; simp only [hkey, Bool.false_eq_true, ↓reduceIte]; rw [if_neg (by omega)]
   · have hyr : 1 ≤ (12 * dt2.t.y + (dt2.t.m - 1) + k0) / 12 ∧ (12 * dt2.t.y + (dt2.t.m - 1) + k0) / 12 ≤ 9999 := by
       omega
     have hk0' : 0 ≤ k0 := by
@@ -111,12 +110,13 @@ theorem diffLoop_down (n : Nat) (dt1 dt2 : Temporal) (h1 : dt1.t.Valid) (h2 : dt
       exact hge (toMicros_lt_of_month_lt _ _ v1 v2 (by omega))
     refine ⟨k0, ?_, hk0', shiftDT_valid dt2.t k0 h2.1 hyr, by omega, ?_⟩
     · rw [diffLoop]
-      simp only [Bool.false_eq_true, ↓reduceIte, lt_iff, hov]
+      simp only [hkey, Bool.false_eq_true, ↓reduceIte, hov]
     · exact toMicros_lt_of_month_lt _ _ v1 (sf (k0 + 1)).1 (by have := (sf (k0 + 1)).2; omega)
 
-theorem diffLoop_up (n : Nat) (dt1 dt2 : Temporal) (h1 : dt1.t.Valid) (h2 : dt2.Valid)
+theorem diffLoop_up (key : Temporal → Int) (hkey : ∀ x, key x = x.t.toMicros)
+    (n : Nat) (dt1 dt2 : Temporal) (h1 : dt1.t.Valid) (h2 : dt2.Valid)
     (hlt0 : dt1.t.toMicros < dt2.t.toMicros) :
-    ∃ k', diffLoop (n + 1) true dt1 dt2 ((dt1.t.y - dt2.t.y) * 12 + (dt1.t.m - dt2.t.m))
+    ∃ k', diffLoop key (n + 1) true dt1 dt2 ((dt1.t.y - dt2.t.y) * 12 + (dt1.t.m - dt2.t.m))
               ⟨dt2.kind, shiftDT dt2.t ((dt1.t.y - dt2.t.y) * 12 + (dt1.t.m - dt2.t.m))⟩
             = some (.ok (k', ⟨dt2.kind, shiftDT dt2.t k'⟩)) ∧
       k' ≤ 0 ∧ (shiftDT dt2.t k').Valid ∧ dt1.t.toMicros ≤ (shiftDT dt2.t k').toMicros ∧
@@ -141,12 +141,12 @@ theorem diffLoop_up (n : Nat) (dt1 dt2 : Temporal) (h1 : dt1.t.Valid) (h2 : dt2.
       toMicros_lt_of_month_lt _ _ v1 (sf (k0 + 1)).1 (by have := (sf (k0 + 1)).2; omega)
     refine ⟨k0 + 1, ?_, by omega, hvalid, by omega, by rw [show k0 + 1 - 1 = k0 by omega]; exact hov⟩
     rw [diffLoop]
-    simp only [↓reduceIte, lt_iff, hov]
+    simp only [hkey, ↓reduceIte, hov]
     rw [applyTo_setMonths (k0 + 1) dt2 h2 hyr]
     simp only []
     cases n with
-    | zero => rw [diffLoop]; simp only [↓reduceIte, lt_iff]; rw [if_neg (by omega)]
-    | succ n => rw [diffLoop]; simp only [↓reduceIte, lt_iff]; rw [if_neg (by omega)]
+    | zero => rw [diffLoop]; simp only [hkey, ↓reduceIte]; rw [if_neg (by omega)]
+    | succ n => rw [diffLoop]; simp only [hkey, ↓reduceIte]; rw [if_neg (by omega)]
   · have hyr : 1 ≤ (12 * dt2.t.y + (dt2.t.m - 1) + k0) / 12 ∧ (12 * dt2.t.y + (dt2.t.m - 1) + k0) / 12 ≤ 9999 := by
       omega
     have hk0' : k0 ≤ 0 := by
@@ -154,7 +154,7 @@ theorem diffLoop_up (n : Nat) (dt1 dt2 : Temporal) (h1 : dt1.t.Valid) (h2 : dt2.
       have := toMicros_lt_of_month_lt _ _ v2 v1 (by omega); omega
     refine ⟨k0, ?_, hk0', shiftDT_valid dt2.t k0 h2.1 hyr, by omega, ?_⟩
     · rw [diffLoop]
-      simp only [↓reduceIte, lt_iff, hov]
+      simp only [hkey, ↓reduceIte, hov]
     · exact toMicros_lt_of_month_lt _ _ (sf (k0 - 1)).1 v1 (by have := (sf (k0 - 1)).2; omega)
 
 theorem coerce_t (a b : Temporal) : (coerce a b).1.t = a.t ∧ (coerce a b).2.t = b.t := by
@@ -174,9 +174,10 @@ theorem coerce_valid (a b : Temporal) (ha : a.Valid) (hb : b.Valid) :
       | (rw [hkb] at h; cases h))
 
 /-- operands `relativedelta(a, b)` accepts in the model: after the date→datetime coercion both are dates,
-    both naive, or both aware with the same zone tag -/
+    both naive, or both aware with the SAME tzinfo object (same zone id and same object id) — the cases in
+    which CPython compares and subtracts wall clocks -/
 def Compatible (a b : Temporal) : Prop :=
-  comparable (coerce a b).1.kind (coerce a b).2.kind = .ok
+  comparable (coerce a b).1.kind (coerce a b).2.kind = .wall
 
 /-- the value `relativedelta(a, b)` computes, in terms of the month count `k` finally chosen -/
 def diffValue (a b : Temporal) (k : Int) : RD :=
@@ -184,8 +185,9 @@ def diffValue (a b : Temporal) (k : Int) : RD :=
     seconds := (a.t.toMicros - (shiftDT b.t k).toMicros) / 1000000,
     microseconds := (a.t.toMicros - (shiftDT b.t k).toMicros) % 1000000 }
 
-theorem diff_main (n : Nat) (a b : Temporal) (ha : a.Valid) (hb : b.Valid) (hc : Compatible a b) :
-    ∃ k, diffN (n + 1) a b = some (.ok (diffValue a b k)) ∧ (shiftDT b.t k).Valid ∧
+theorem diff_main (off : Nat → DT → Int) (n : Nat) (a b : Temporal) (ha : a.Valid) (hb : b.Valid)
+    (hc : Compatible a b) :
+    ∃ k, diffN off (n + 1) a b = some (.ok (diffValue a b k)) ∧ (shiftDT b.t k).Valid ∧
       ((¬ a.t.toMicros < b.t.toMicros ∧ 0 ≤ k ∧ (shiftDT b.t k).toMicros ≤ a.t.toMicros ∧
           a.t.toMicros < (shiftDT b.t (k + 1)).toMicros) ∨
        (a.t.toMicros < b.t.toMicros ∧ k ≤ 0 ∧ a.t.toMicros ≤ (shiftDT b.t k).toMicros ∧
@@ -203,21 +205,22 @@ theorem diff_main (n : Nat) (a b : Temporal) (ha : a.Valid) (hb : b.Valid) (hc :
   have m1 := w1.1.1; have m1' := w1.1.2.1; have m2 := w2.1.1; have m2' := w2.1.2.1
   rw [applyTo_setMonths _ dt2 v2 (by omega)]
   simp only [hc]
+  have hkey : ∀ x, cmpKey off (Cmp.wall == Cmp.utc) x = x.t.toMicros := by
+    intro x; unfold cmpKey; simp
   by_cases hup : dt1.t.toMicros < dt2.t.toMicros
-  · obtain ⟨k, hl, hk, hv, h3, h4⟩ := diffLoop_up n dt1 dt2 v1.1 v2 hup
-    have hlt : DT.lt dt1.t dt2.t = true := (lt_iff _ _).2 hup
+  · obtain ⟨k, hl, hk, hv, h3, h4⟩ := diffLoop_up _ hkey n dt1 dt2 v1.1 v2 hup
+    have hlt : decide (cmpKey off (Cmp.wall == Cmp.utc) dt1 < cmpKey off (Cmp.wall == Cmp.utc) dt2) = true := by
+      rw [hkey, hkey]; exact decide_eq_true hup
     rw [hlt, hl]
-    simp only []
+    simp only [hkey]
     refine ⟨k, ?_, by rw [← e2]; exact hv, Or.inr ?_⟩
     · unfold diffValue; rw [e1, e2]
     · rw [← e1, ← e2]; exact ⟨hup, hk, h3, h4⟩
-  · obtain ⟨k, hl, hk, hv, h3, h4⟩ := diffLoop_down n dt1 dt2 v1.1 v2 hup
-    have hlt : DT.lt dt1.t dt2.t = false := by
-      cases h : DT.lt dt1.t dt2.t with
-      | false => rfl
-      | true => exact absurd ((lt_iff _ _).1 h) hup
+  · obtain ⟨k, hl, hk, hv, h3, h4⟩ := diffLoop_down _ hkey n dt1 dt2 v1.1 v2 hup
+    have hlt : decide (cmpKey off (Cmp.wall == Cmp.utc) dt1 < cmpKey off (Cmp.wall == Cmp.utc) dt2) = false := by
+      rw [hkey, hkey]; exact decide_eq_false hup
     rw [hlt, hl]
-    simp only []
+    simp only [hkey]
     refine ⟨k, ?_, by rw [← e2]; exact hv, Or.inl ?_⟩
     · unfold diffValue; rw [e1, e2]
     · rw [← e1, ← e2]; exact ⟨hup, hk, h3, h4⟩
@@ -357,5 +360,174 @@ theorem diffValue_dates_noTime (a b : Temporal) (k : Int) (ha : a.Valid) (hb : b
   rw [← hpre]
   simp only [h11, h12, h13, h14]
   rfl
+
+/-- whenever `x + relativedelta(years/months from _set_months k)` returns, it is the clipped month shift -/
+theorem applyTo_setMonths_ok (k : Int) (x r : Temporal) (hx : x.Valid)
+    (h : applyTo (Gen.setMonths empty k) x = .ok r) : r = { kind := x.kind, t := shiftDT x.t k } := by
+  by_cases hy : 1 ≤ (12 * x.t.y + (x.t.m - 1) + k) / 12 ∧ (12 * x.t.y + (x.t.m - 1) + k) / 12 ≤ 9999
+  · rw [applyTo_setMonths k x hx hy] at h
+    injection h with h; exact h.symm
+  · exfalso
+    obtain ⟨hmo, hk⟩ := setMonths_monthsOnly k
+    obtain ⟨h1, h2, h3, h4, h5, h6, h7, h8, h9, h10, h11, h12, h13, h14, h15, h16, h17⟩ := hmo
+    generalize Gen.setMonths empty k = R at *
+    have hto : hasTimeOf R = 0 := by unfold hasTimeOf; simp [h3, h4, h5, h6, h11, h12, h13, h14]
+    have hdom : InDomain R := by
+      refine ⟨⟨by omega, by omega, by omega, by omega, by omega, by rw [h15, hto]⟩, by simp [h7], ?_, by simp [h9], ?_⟩
+      · intro v hv; rw [h8] at hv; contradiction
+      · intro w n hw; rw [h10] at hw; contradiction
+    rw [applyTo_eq_spec R x hdom hx] at h
+    unfold RDSpec.apply RDSpec.monthShift at h
+    simp only [h7, h8, h9, Option.getD_none] at h
+    rw [hk] at h
+    have es : RDSpec.shiftedDT R x.t ((12 * x.t.y + (x.t.m - 1) + k) / 12)
+        ((12 * x.t.y + (x.t.m - 1) + k) % 12 + 1)
+        (min x.t.d (Cal.daysInMonth ((12 * x.t.y + (x.t.m - 1) + k) / 12)
+          ((12 * x.t.y + (x.t.m - 1) + k) % 12 + 1))) = shiftDT x.t k := by
+      unfold RDSpec.shiftedDT shiftDT; simp only [h11, h12, h13, h14, Option.getD_none]
+    unfold RDSpec.applyShifted at h
+    rw [es] at h
+    have hnv : ¬ (shiftDT x.t k).Valid := by
+      intro hv
+      have a1 := hv.1.1; have a2 := hv.1.2.1
+      unfold shiftDT at a1 a2; simp only [] at a1 a2
+      exact hy ⟨a1, a2⟩
+    by_cases hf : fitsCInt (shiftDT x.t k) = true
+    · rw [if_neg (by simp [hf]), if_pos hnv] at h; contradiction
+    · rw [if_pos hf] at h; contradiction
+
+theorem diffLoop_congr (key key' : Temporal → Int) (c : Int) (up : Bool) (dt1 dt1' dt2 : Temporal)
+    (h1 : key' dt1' = key dt1 - c)
+    (hall : ∀ k r, applyTo (Gen.setMonths empty k) dt2 = .ok r → key' r = key r - c) :
+    ∀ (fuel : Nat) (months : Int) (dtm : Temporal), key' dtm = key dtm - c →
+      diffLoop key' fuel up dt1' dt2 months dtm = diffLoop key fuel up dt1 dt2 months dtm := by
+  intro fuel
+  induction fuel with
+  | zero =>
+    intro months dtm hm
+    rw [diffLoop, diffLoop, h1, hm]
+    cases up
+    · simp only [Bool.false_eq_true, ↓reduceIte]
+      by_cases hc : key dt1 < key dtm
+      · rw [if_pos hc, if_pos (by omega)]
+      · rw [if_neg hc, if_neg (by omega)]
+    · simp only [↓reduceIte]
+      by_cases hc : key dtm < key dt1
+      · rw [if_pos hc, if_pos (by omega)]
+      · rw [if_neg hc, if_neg (by omega)]
+  | succ n ih =>
+    intro months dtm hm
+    rw [diffLoop, diffLoop, h1, hm]
+    cases up
+    · simp only [Bool.false_eq_true, ↓reduceIte]
+      by_cases hc : key dt1 < key dtm
+      · rw [if_pos hc, if_pos (by omega)]
+        cases hr : applyTo (Gen.setMonths empty (months - 1)) dt2 with
+        | error e => rfl
+        | ok r => exact ih _ r (hall _ r hr)
+      · rw [if_neg hc, if_neg (by omega)]
+    · simp only [↓reduceIte]
+      by_cases hc : key dtm < key dt1
+      · rw [if_pos hc, if_pos (by omega)]
+        cases hr : applyTo (Gen.setMonths empty (months + 1)) dt2 with
+        | error e => rfl
+        | ok r => exact ih _ r (hall _ r hr)
+      · rw [if_neg hc, if_neg (by omega)]
+
+/-- the datetime the loop hands back is the one it was given or some `dt2 + months-only delta` -/
+theorem diffLoop_result (key : Temporal → Int) (up : Bool) (dt1 dt2 : Temporal) :
+    ∀ (fuel : Nat) (months : Int) (dtm : Temporal) (k' : Int) (dtm' : Temporal),
+      diffLoop key fuel up dt1 dt2 months dtm = some (.ok (k', dtm')) →
+      dtm' = dtm ∨ ∃ k, applyTo (Gen.setMonths empty k) dt2 = .ok dtm' := by
+  intro fuel
+  induction fuel with
+  | zero =>
+    intro months dtm k' dtm' h
+    rw [diffLoop] at h
+    by_cases hc : (if up = true then key dtm < key dt1 else key dt1 < key dtm)
+    · rw [if_pos hc] at h; contradiction
+    · rw [if_neg hc] at h
+      injection h with h; injection h with h; injection h with _ h; exact Or.inl h.symm
+  | succ n ih =>
+    intro months dtm k' dtm' h
+    rw [diffLoop] at h
+    by_cases hc : (if up = true then key dtm < key dt1 else key dt1 < key dtm)
+    · rw [if_pos hc] at h
+      simp only [] at h
+      cases hr : applyTo (Gen.setMonths empty (if up = true then months + 1 else months - 1)) dt2 with
+      | error e => rw [hr] at h; injection h with h; contradiction
+      | ok r =>
+        rw [hr] at h
+        rcases ih _ r k' dtm' h with h' | h'
+        · exact Or.inr ⟨_, by rw [h']; exact hr⟩
+        · exact Or.inr h'
+    · rw [if_neg hc] at h
+      injection h with h; injection h with h; injection h with _ h; exact Or.inl h.symm
+
+/-- two aware operands held by DISTINCT tzinfo objects (CPython compares and subtracts them in UTC), with
+    the zone offsets agreeing at `a` and at every whole-month shift of `b`'s wall time: the constructor
+    computes the same value as for one shared object -/
+theorem diff_main_distinct (off : Nat → DT → Int) (n : Nat) (a b : Temporal) (hb : b.Valid)
+    (z1 o1 z2 o2 : Nat) (hka : a.kind = .aware z1 o1) (hkb : b.kind = .aware z2 o2)
+    (hne : ¬ (z1 = z2 ∧ o1 = o2)) (c : Int) (hca : off z1 a.t = c)
+    (hcb : ∀ k, off z2 (shiftDT b.t k) = c) :
+    diffN off (n + 1) a b = diffN off (n + 1) { a with kind := b.kind } b := by
+  have hco : coerce a b = (a, b) := by unfold coerce; rw [hka, hkb]
+  have hco' : coerce { a with kind := b.kind } b = ({ a with kind := b.kind }, b) := by
+    unfold coerce; simp only [hkb]
+  unfold diffN
+  simp only [hco, hco']
+  cases hap : applyTo (Gen.setMonths empty ((a.t.y - b.t.y) * 12 + (a.t.m - b.t.m))) b with
+  | error e => rfl
+  | ok dtm =>
+    simp only []
+    have hm1 : comparable a.kind b.kind = Cmp.utc := by
+      rw [hka, hkb]; unfold comparable; simp only []; rw [if_neg hne]
+    have hm2 : comparable b.kind b.kind = Cmp.wall := by
+      rw [hkb]; unfold comparable; simp
+    rw [hm1, hm2]
+    simp only []
+    have hutc : (Cmp.utc == Cmp.utc) = true := by decide
+    have hwall : (Cmp.wall == Cmp.utc) = false := by decide
+    rw [hutc, hwall]
+    -- keys
+    have k1 : cmpKey off true a = cmpKey off false ({ a with kind := b.kind } : Temporal) - c := by
+      unfold cmpKey utcOff; simp [hka, hca]
+    have kall : ∀ k r, applyTo (Gen.setMonths empty k) b = .ok r → cmpKey off true r = cmpKey off false r - c := by
+      intro k r hr
+      rw [applyTo_setMonths_ok k b r hb hr]
+      unfold cmpKey utcOff; simp [hkb, hcb k]
+    have kb : cmpKey off true b = cmpKey off false b - c := by
+      have := hcb 0
+      rw [shiftDT_zero _ (validNoYear_of_valid _ hb.1)] at this
+      unfold cmpKey utcOff; simp [hkb, this]
+    have kdtm := kall _ dtm hap
+    have hdec : decide (cmpKey off true a < cmpKey off true b) =
+        decide (cmpKey off false ({ a with kind := b.kind } : Temporal) < cmpKey off false b) := by
+      rw [k1, kb]; congr 1; apply propext; constructor <;> intro h <;> omega
+    rw [hdec]
+    have hcongr := diffLoop_congr (cmpKey off false) (cmpKey off true) c
+      (decide (cmpKey off false ({ a with kind := b.kind } : Temporal) < cmpKey off false b))
+      ({ a with kind := b.kind } : Temporal) a b k1 kall (n + 1) ((a.t.y - b.t.y) * 12 + (a.t.m - b.t.m)) dtm kdtm
+    rw [hcongr]
+    cases hl : diffLoop (cmpKey off false) (n + 1)
+        (decide (cmpKey off false ({ a with kind := b.kind } : Temporal) < cmpKey off false b))
+        ({ a with kind := b.kind } : Temporal) b ((a.t.y - b.t.y) * 12 + (a.t.m - b.t.m)) dtm with
+    | none => rfl
+    | some res =>
+      cases res with
+      | error e => rfl
+      | ok p =>
+        obtain ⟨k', dtm'⟩ := p
+        simp only []
+        -- dtm' is again a month shift of b (or the initial dtm): its key differs by c as well
+        have kd : cmpKey off true dtm' = cmpKey off false dtm' - c := by
+          rcases diffLoop_result _ _ _ _ _ _ _ k' dtm' hl with h' | ⟨k, h'⟩
+          · rw [h']; exact kdtm
+          · exact kall k dtm' h'
+        rw [k1, kd]
+        have e : cmpKey off false ({ a with kind := b.kind } : Temporal) - c - (cmpKey off false dtm' - c) =
+            cmpKey off false ({ a with kind := b.kind } : Temporal) - cmpKey off false dtm' := by omega
+        rw [e]
 
 end RDP
